@@ -65,13 +65,29 @@ func (c *scriptCtx) Err() error {
 }
 func (c *scriptCtx) Value(key interface{}) interface{} { return nil }
 
+// racingStore delivers a fresh message into a mailbox right after the scanner took its snapshot
+// of that mailbox and before the scanner acts on it (a delivery racing with the scan).
+type racingStore struct {
+	storage.Store
+	fresh func(box string)
+}
+
+func (r *racingStore) VisitMailboxes(f func([]storage.Message) bool) error {
+	return r.Store.VisitMailboxes(func(ms []storage.Message) bool {
+		if len(ms) > 0 {
+			r.fresh(ms[0].Mailbox())
+		}
+		return f(ms)
+	})
+}
+
 const hour = int64(time.Hour)
 
 // VerifC12Scan: one DoScan over a real memory store holding m1+m2 messages with symbolic dates in
 // two mailboxes. T0/T1 are clock readings before/after the scan (the scan reads the clock in
 // between): a message older than T0-period is gone, one younger than T1-period is still there
 // with its place in the listing; nothing else changes.
-func VerifC12Scan(m1 int, m2 int) {
+func VerifC12Scan(m1 int, m2 int, race int) {
 	vrf.SymbolicClock()
 	st, err := mem.New(config.Storage{}, extension.NewHost())
 	if err != nil {
@@ -100,7 +116,20 @@ func VerifC12Scan(m1 int, m2 int) {
 	}
 	add("a", m1)
 	add("b", m2)
-	rs := storage.NewRetentionScanner(config.Storage{RetentionPeriod: period, RetentionSleep: 1}, st)
+	var scanned storage.Store = st
+	var fresh []rec
+	if race != 0 {
+		// only meaningful when a brand-new message is younger than the period
+		vrf.Assume(int64(period) > 0)
+		scanned = &racingStore{Store: st, fresh: func(box string) {
+			d := time.Now()
+			id, aerr := st.AddMessage(&inMsg{mailbox: box, date: d})
+			if aerr == nil {
+				fresh = append(fresh, rec{box, id, d})
+			}
+		}}
+	}
+	rs := storage.NewRetentionScanner(config.Storage{RetentionPeriod: period, RetentionSleep: 1}, scanned)
 	serr := rs.DoScan(newScriptCtx(-1))
 	t1 := time.Now()
 	vrf.Assert("scan-noerr", serr == nil)
@@ -118,6 +147,11 @@ func VerifC12Scan(m1 int, m2 int) {
 			vrf.CoverIf("young-message", true)
 			vrf.Assert("young-retained", present)
 		}
+	}
+	for _, r := range fresh {
+		msg, gerr := st.GetMessage(r.box, r.id)
+		vrf.CoverIf("racing-delivery", true)
+		vrf.Assert("racing-delivery-survives", gerr == nil && msg != nil)
 	}
 	// survivors keep their arrival order
 	for _, box := range []string{"a", "b"} {
